@@ -537,6 +537,10 @@ def scenario(rng, profile):
             wire = WIRES[R.nrx % len(WIRES)]
             R.nrx += 1
             msg = wire.unserialize(wire.serialize(msg)[0])[0]
+            if isinstance(msg, (message.Result, message.Event, message.Invocation, message.Error)) and msg.payload is None \
+                    and not msg.args and not msg.kwargs and rng.random() < 0.2:
+                # the same message with its empty payload spelled out on the wire: [..., []] or [..., [], {}]
+                msg = type(msg).parse(msg.marshal() + rng.choice([[[]], [[], {}]]))
             s.onMessage(msg)
         except Exception as e:  # noqa
             R.re["exc"] = type(e).__name__
@@ -649,7 +653,10 @@ def scenario(rng, profile):
 
             def f():
                 opts = SubscribeOptions(details=True if hids[hid] else None, get_retained=gr) if (hids[hid] or gr is not None) else None
-                fut = s.subscribe(R.handlers[hid], topic, options=opts, check_types=(rng.random() < 0.3))
+                # (check_types wraps the handler in a coroutine function: on asyncio its body then runs one loop iteration after
+                # the library has handed it the event, i.e. after the plain handlers of the same subscription - what the driver
+                # records is when bodies run, so the option is only mixed in where it does not change that: on Twisted)
+                fut = s.subscribe(R.handlers[hid], topic, options=opts, check_types=(rng.random() < 0.3 and fw.NAME == "tx"))
                 rid = R.last_req()
                 R.requests[rid] = dict(kind="subscribe", hid=hid, unsub_on_reply=(profile == "c11" and rng.random() < 0.15))
 
